@@ -1,5 +1,7 @@
 import PdfModel.Lemmas.ObjStm
 import PdfModel.Lemmas.Offsets
+import PdfModel.Lemmas.SuffixConcrete
+import PdfModel.Lemmas.Serialize
 
 /-!
 # C11 — an object's value does not depend on how it is stored
@@ -252,6 +254,201 @@ example : compressedOld (V := Nat) .any (.ok (.plain 5)) = .ok (.plain 5) := by 
 /-- under the old gate the conclusion of `length_compressed` fails for every member -/
 theorem gateOld_refuses_lengths (r : Out (Obj Nat)) : compressedOld .integer r = .err := by
   simp [compressedOld, gateOld]
+
+/-! ## The parser parameters discharged against the parser model (`Model/Parser.lean`)
+
+`Offsets.concreteP env …` instantiates the token-level parsers with the concrete lexer / parser models:
+members are read by `parse(slice, flags)`, indirect objects by `parse_indirect_object`. For every value `v`
+and every conformant spelling `text` of it (`Spells`, `Spec/Syntax.lean`; by `C03.printer_conformant` every
+text of the C03 printer `Spec/Render.lean` is one, and the serializer's output is covered by C04) the
+hypotheses `IgnoresTrailingWs` / `DirectHolds` of `stored_equal` become theorems. What remains a parameter is
+third-party: `env.parseReal` (`f32::from_str`) and the filter chain `dec`. -/
+
+section Concrete
+open PdfLex PdfShift
+open PdfSyntax (Gap Bnd Spells needsBnd KeysDistinct namesUtf8 vdepth need wf_of NatTok)
+
+variable {R : Type}
+
+/-- **Trailing white-space within the slice is irrelevant** (the hypothesis `IgnoresTrailingWs`, for the parser
+    model): with any white-space or none behind it, up to the end of the buffer, the spelling parses to its
+    value — in particular an integer that ends the buffer (D6). -/
+theorem slice_parse_ignores_trailing_ws (env : Env R) (hd : env.decrypt = none) (v : Prim R) (text : List UInt8)
+    (hsp : Spells env.parseReal v text) (hk : KeysDistinct v) (hu : namesUtf8 v = true) (hdepth : vdepth v ≤ maxDepth)
+    (sep : List UInt8) (hsep : AllWs sep) (hsz : (text ++ sep).length ≤ 2147483647)
+    (flags : Nat) (hfl : flags &&& flagOf v ≠ 0) :
+    omap Prod.fst (parse env (text ++ sep).toArray flags) = .ok v ∧
+    omap Prod.fst (parse env text.toArray flags) = .ok v := by
+  constructor
+  · rw [parse_member_slice env hd v text hsp hk hu hdepth sep hsep hsz flags hfl]; rfl
+  · have := parse_member_slice env hd v text hsp hk hu hdepth [] (by intro b hb; cases hb) (by simp at hsz ⊢; omega) flags hfl
+    simp only [List.append_nil] at this
+    rw [this]; rfl
+
+/-- **End of buffer = followed by a delimiter or white-space.** The value read from a member slice
+    (`text ++ sep`, buffer ends) is the value read from the same text anywhere inside a larger buffer
+    behind a gap and in front of anything that does not merge with it. -/
+theorem slice_parse_eq_embedded (env : Env R) (hd : env.decrypt = none) (v : Prim R) (text : List UInt8)
+    (hsp : Spells env.parseReal v text) (hk : KeysDistinct v) (hu : namesUtf8 v = true) (hdepth : vdepth v ≤ maxDepth)
+    (sep : List UInt8) (hsep : AllWs sep) (hsz : (text ++ sep).length ≤ 2147483647)
+    {buf : Buf} (hbsz : buf.size ≤ 2147483647) (g rest : List UInt8) (pos fuel : Nat) (ctx : Option (Nat × Nat))
+    (hg : Gap g) (hs : Suffix buf pos (g ++ text ++ rest)) (hb : needsBnd v = true → Bnd rest)
+    (hah : Ahead buf (pos + g.length + text.length)) (hfuel : need v ≤ fuel)
+    (flags : Nat) (hfl : flags &&& flagOf v ≠ 0) :
+    omap Prod.fst (parse env (text ++ sep).toArray flags)
+      = omap Prod.fst (parseCtx env buf fuel pos ctx flags maxDepth) := by
+  rw [parse_member_slice env hd v text hsp hk hu hdepth sep hsep hsz flags hfl,
+    parseCtx_spells env hd v text hsp (wf_of v hk hu) hbsz g rest pos fuel ctx maxDepth flags hg hfl hs hb hah hfuel hdepth]
+  rfl
+
+/-- **`compressed_reads_member`, concrete.** With the parser model in place of the parameter: resolving a
+    compressed entry whose member `idx` spells `v` yields `v` — any position, any white-space behind it or
+    none, any filter chain that decodes to the packed bytes, any flag set that admits `v`'s kind. -/
+theorem compressed_reads_member_concrete (env : Env R) (hd : env.decrypt = none) (pfuel : Nat)
+    (dec : Dict R → OffLex.Bytes → Out OffLex.Bytes) (X : OffLex.Bytes → Out (List Xref.Sub × Dict R))
+    (S : OffLex.Bytes → List (Out (Obj (Prim R))))
+    (buf : OffLex.Bytes) (start : Nat) (t : Xref.Table) (fuel : Nat) (chain : List Nat) (flags : Offsets.Flags)
+    (id sid idx : Nat) (info : Prim R) (a b : Nat) (raw : OffLex.Bytes) (ms : List Member) (v : Prim R)
+    (hlook : Xref.lookup t id = .compressed sid idx)
+    (hchain : chain.contains sid = false)
+    (hstm : resolveRef (concreteP env pfuel dec X S) buf start t fuel (sid :: chain) .any sid = .ok (.stream info a b))
+    (hhead : (concreteP env pfuel dec X S).stmHead info = .ok ((pack ms).n, (pack ms).first))
+    (hraw : readRange buf a b = .ok raw)
+    (hdec : (concreteP env pfuel dec X S).decode info raw = .ok (pack ms).data)
+    (hi : idx < ms.length) (hw : WellSized ms)
+    (hsp : Spells env.parseReal v ms[idx].text) (hk : KeysDistinct v) (hu : namesUtf8 v = true)
+    (hdepth : vdepth v ≤ maxDepth) (hsep : AllWs ms[idx].sep)
+    (hsz : (ms[idx].text ++ ms[idx].sep).length ≤ 2147483647)
+    (hfl : flagsNat flags &&& flagOf v ≠ 0) :
+    resolveRef (concreteP env pfuel dec X S) buf start t (fuel + 1) chain flags id = .ok (.plain v) := by
+  rw [compressed_reads_member (concreteP env pfuel dec X S) buf start t fuel chain flags id sid idx info a b raw ms
+    hlook hchain hstm hhead hraw hdec hi hw]
+  have : (concreteP env pfuel dec X S).parseMember flags (ms[idx].text ++ ms[idx].sep) = .ok v := by
+    show omap Prod.fst (parse { env with fileOffset := 0 } (ms[idx].text ++ ms[idx].sep).toArray (flagsNat flags)) = .ok v
+    rw [parse_member_slice { env with fileOffset := 0 } hd v _ hsp hk hu hdepth _ hsep hsz _ hfl]; rfl
+  rw [this]; rfl
+
+/-- the direct twin: `n g obj text endobj` (any gaps the syntax allows) read through
+    `Lexer::with_offset(read(start + pos ..), start + pos)` + `parse_indirect_object` -/
+theorem direct_reads_text_concrete (env : Env R) (hd : env.decrypt = none) (pfuel : Nat)
+    (dec : Dict R → OffLex.Bytes → Out OffLex.Bytes) (X : OffLex.Bytes → Out (List Xref.Sub × Dict R))
+    (S : OffLex.Bytes → List (Out (Obj (Prim R))))
+    (buf : OffLex.Bytes) (start : Nat) (t : Xref.Table) (fuel : Nat) (chain : List Nat) (flags : Offsets.Flags)
+    (id pos q : Nat) (v : Prim R) (text g0 na g1 nb g2 g3 g4 rest : List UInt8) (oid ogen : Nat)
+    (hlook : Xref.lookup t id = .direct pos)
+    (hsfx : suffixAt buf start pos = .ok (q, g0 ++ na ++ g1 ++ nb ++ g2 ++ kwObj ++ g3 ++ text ++ g4 ++ kwEndobj ++ rest))
+    (hsp : Spells env.parseReal v text) (hk : KeysDistinct v) (hu : namesUtf8 v = true) (hdepth : vdepth v ≤ maxDepth)
+    (hsz : (g0 ++ na ++ g1 ++ nb ++ g2 ++ kwObj ++ g3 ++ text ++ g4 ++ kwEndobj ++ rest).length ≤ 2147483647)
+    (hg0 : Gap g0) (ha : NatTok na oid) (hb : NatTok nb ogen) (hg1 : Gap g1) (hg1ne : g1 ≠ []) (hg2 : Gap g2)
+    (hg2ne : g2 ≠ []) (hid : oid ≤ 18446744073709551615) (hgen : ogen ≤ 18446744073709551615) (hg3 : Gap g3) (hg4 : Gap g4)
+    (hb3 : Bnd (g3 ++ text)) (hb4 : needsBnd v = true → g4 ≠ []) (hbnd : Bnd rest) (hfuel : need v ≤ pfuel)
+    (hfl : flagsNat flags &&& flagOf v ≠ 0) :
+    resolveRef (concreteP env pfuel dec X S) buf start t (fuel + 1) chain flags id = .ok (.plain v) := by
+  simp only [resolveRef, hlook, directBody, hsfx]
+  have hp := parseIndirectObject_spells { env with fileOffset := 0 } hd v text hsp (wf_of v hk hu)
+    (buf := (g0 ++ na ++ g1 ++ nb ++ g2 ++ kwObj ++ g3 ++ text ++ g4 ++ kwEndobj ++ rest).toArray) (by simpa using hsz)
+    g0 na g1 nb g2 g3 g4 rest oid ogen 0 pfuel hg0 ha hb hg1 hg1ne hg2 hg2ne hid hgen hg3 hg4 (suffix_zero _) hb3 hb4 hbnd
+    hfuel hdepth (flagsNat flags) hfl
+  have : (concreteP env pfuel dec X S).objAt flags (g0 ++ na ++ g1 ++ nb ++ g2 ++ kwObj ++ g3 ++ text ++ g4 ++ kwEndobj ++ rest)
+      = .ok (.plain v) := by
+    show toObjParse (parseIndirectObject { env with fileOffset := 0 } _ pfuel 0 (flagsNat flags)) = _
+    rw [hp]
+    cases v with
+    | stream info inner => simp [Spells] at hsp
+    | _ => rfl
+  rw [this]
+
+/-- **`stored_equal`, concrete.** A value stored as an ordinary indirect object and the same spelling stored
+    as a member of an object stream resolve to the same value, for every value the syntax can spell. -/
+theorem stored_equal_concrete (env : Env R) (hd : env.decrypt = none) (pfuel : Nat)
+    (dec : Dict R → OffLex.Bytes → Out OffLex.Bytes) (X : OffLex.Bytes → Out (List Xref.Sub × Dict R))
+    (S : OffLex.Bytes → List (Out (Obj (Prim R))))
+    (buf : OffLex.Bytes) (start : Nat) (t : Xref.Table) (fuel : Nat) (chain : List Nat) (flags : Offsets.Flags)
+    (v : Prim R) (hk : KeysDistinct v) (hu : namesUtf8 v = true) (hdepth : vdepth v ≤ maxDepth)
+    (hfl : flagsNat flags &&& flagOf v ≠ 0)
+    -- the direct twin
+    (id₁ pos q : Nat) (text g0 na g1 nb g2 g3 g4 rest : List UInt8) (oid ogen : Nat)
+    (hlook₁ : Xref.lookup t id₁ = .direct pos)
+    (hsfx : suffixAt buf start pos = .ok (q, g0 ++ na ++ g1 ++ nb ++ g2 ++ kwObj ++ g3 ++ text ++ g4 ++ kwEndobj ++ rest))
+    (hsp : Spells env.parseReal v text)
+    (hsz : (g0 ++ na ++ g1 ++ nb ++ g2 ++ kwObj ++ g3 ++ text ++ g4 ++ kwEndobj ++ rest).length ≤ 2147483647)
+    (hg0 : Gap g0) (ha : NatTok na oid) (hb : NatTok nb ogen) (hg1 : Gap g1) (hg1ne : g1 ≠ []) (hg2 : Gap g2)
+    (hg2ne : g2 ≠ []) (hid : oid ≤ 18446744073709551615) (hgen : ogen ≤ 18446744073709551615) (hg3 : Gap g3) (hg4 : Gap g4)
+    (hb3 : Bnd (g3 ++ text)) (hb4 : needsBnd v = true → g4 ≠ []) (hbnd : Bnd rest) (hfuel : need v ≤ pfuel)
+    -- the compressed twin (possibly another conformant spelling of the same value)
+    (id₂ sid idx : Nat) (info : Prim R) (a b : Nat) (raw : OffLex.Bytes) (ms : List Member)
+    (hlook₂ : Xref.lookup t id₂ = .compressed sid idx)
+    (hchain : chain.contains sid = false)
+    (hstm : resolveRef (concreteP env pfuel dec X S) buf start t fuel (sid :: chain) .any sid = .ok (.stream info a b))
+    (hhead : (concreteP env pfuel dec X S).stmHead info = .ok ((pack ms).n, (pack ms).first))
+    (hraw : readRange buf a b = .ok raw)
+    (hdec : (concreteP env pfuel dec X S).decode info raw = .ok (pack ms).data)
+    (hi : idx < ms.length) (hw : WellSized ms)
+    (hsp₂ : Spells env.parseReal v ms[idx].text) (hsep : AllWs ms[idx].sep)
+    (hsz₂ : (ms[idx].text ++ ms[idx].sep).length ≤ 2147483647) :
+    resolveRef (concreteP env pfuel dec X S) buf start t (fuel + 1) chain flags id₁
+      = resolveRef (concreteP env pfuel dec X S) buf start t (fuel + 1) chain flags id₂ := by
+  rw [direct_reads_text_concrete env hd pfuel dec X S buf start t fuel chain flags id₁ pos q v text g0 na g1 nb g2 g3 g4 rest
+      oid ogen hlook₁ hsfx hsp hk hu hdepth hsz hg0 ha hb hg1 hg1ne hg2 hg2ne hid hgen hg3 hg4 hb3 hb4 hbnd hfuel hfl,
+    compressed_reads_member_concrete env hd pfuel dec X S buf start t fuel chain flags id₂ sid idx info a b raw ms v
+      hlook₂ hchain hstm hhead hraw hdec hi hw hsp₂ hk hu hdepth hsep hsz₂ hfl]
+
+/-- **`length_compressed`, concrete.** The request `resolve_flags(r, INTEGER)` that `parse_stream_object` issues
+    for an indirect `/Length` whose integer `n` is a member of an object stream is answered with `n`
+    (`as_usize`): after the D42 repair the compressed branch serves restricted flag sets. -/
+theorem length_compressed_concrete (env : Env R) (hd : env.decrypt = none) (pfuel : Nat)
+    (dec : Dict R → OffLex.Bytes → Out OffLex.Bytes) (X : OffLex.Bytes → Out (List Xref.Sub × Dict R))
+    (S : OffLex.Bytes → List (Out (Obj (Prim R))))
+    (buf : OffLex.Bytes) (start : Nat) (t : Xref.Table) (fuel : Nat) (chain : List Nat)
+    (lid sid idx : Nat) (info : Prim R) (a b : Nat) (raw : OffLex.Bytes) (ms : List Member) (n : Nat)
+    (hlook : Xref.lookup t lid = .compressed sid idx)
+    (hchain : chain.contains sid = false)
+    (hstm : resolveRef (concreteP env pfuel dec X S) buf start t fuel (sid :: chain) .any sid = .ok (.stream info a b))
+    (hhead : (concreteP env pfuel dec X S).stmHead info = .ok ((pack ms).n, (pack ms).first))
+    (hraw : readRange buf a b = .ok raw)
+    (hdec : (concreteP env pfuel dec X S).decode info raw = .ok (pack ms).data)
+    (hi : idx < ms.length) (hw : WellSized ms)
+    (hsp : Spells env.parseReal (.int (n : Int)) ms[idx].text) (hsep : AllWs ms[idx].sep)
+    (hsz : (ms[idx].text ++ ms[idx].sep).length ≤ 2147483647) :
+    (resolveRef (concreteP env pfuel dec X S) buf start t (fuel + 1) chain .integer lid).bind
+        (fun o => match o with
+          | .plain v => (concreteP env pfuel dec X S).asLen v
+          | .stream _ _ _ => .err)
+      = .ok n := by
+  rw [compressed_reads_member_concrete env hd pfuel dec X S buf start t fuel chain .integer lid sid idx info a b raw ms (.int n)
+    hlook hchain hstm hhead hraw hdec hi hw hsp (by simp [KeysDistinct]) (by simp [namesUtf8]) (by simp [vdepth]) hsep hsz
+    (by simp only [flagsNat, flagOf]; decide)]
+  simp [concreteP, asNat]
+
+/-- … for every value as the C03 printer spells it (`Spec/Render.lean`, any tape of random layout choices) -/
+theorem rendered_member_concrete (env : Env R) (hd : env.decrypt = none) (fmt : R → List UInt8) (v : Prim R)
+    (tape : List Nat) (hr : PdfSpec.Renderable fmt env.parseReal v) (hk : KeysDistinct v) (hu : namesUtf8 v = true)
+    (hdepth : vdepth v ≤ maxDepth) (sep : List UInt8) (hsep : AllWs sep)
+    (hsz : ((PdfSpec.render fmt v tape).1 ++ sep).length ≤ 2147483647) (flags : Nat) (hfl : flags &&& flagOf v ≠ 0) :
+    omap Prod.fst (parse env ((PdfSpec.render fmt v tape).1 ++ sep).toArray flags) = .ok v :=
+  (slice_parse_ignores_trailing_ws env hd v _ (PdfSpec.render_spells fmt env.parseReal v hr tape) hk hu hdepth sep hsep hsz
+    flags hfl).1
+
+/-- … and as the library's own serializer writes it (`Model/Serialize.lean`) -/
+theorem serialized_member_concrete (env : Env R) (hd : env.decrypt = none) (fmt : R → List UInt8) (v : Prim R)
+    (out : List UInt8) (hs : Serialisable fmt env.parseReal v) (hout : serialize fmt v = .ok out)
+    (hk : KeysDistinct v) (hu : namesUtf8 v = true) (hdepth : vdepth v ≤ maxDepth) (sep : List UInt8) (hsep : AllWs sep)
+    (hsz : (out ++ sep).length ≤ 2147483647) (flags : Nat) (hfl : flags &&& flagOf v ≠ 0) :
+    omap Prod.fst (parse env (out ++ sep).toArray flags) = .ok v := by
+  obtain ⟨txt, trail, he, hsp, htr, _⟩ := serialize_spells fmt env.parseReal v hs
+  rw [he] at hout
+  cases hout
+  have hws : AllWs (trail ++ sep) := by
+    intro b hb
+    rcases List.mem_append.mp hb with h | h
+    · rcases htr with rfl | rfl
+      · cases h
+      · simp at h; subst h; decide
+    · exact hsep b h
+  have := (slice_parse_ignores_trailing_ws env hd v txt hsp hk hu hdepth (trail ++ sep) hws (by simpa using hsz) flags hfl).1
+  simpa using this
+
+end Concrete
 
 /-! ## Non-vacuity: a concrete stream with an integer first, a name in the middle without separator, a
 string, and `null` last without anything behind it -/
